@@ -53,7 +53,7 @@ def framing_invariance(o):
     for (int i = 0; i < 40; ++i) { std::vector<double> w; for (int j = 0; j < k; ++j) w.push_back(i - j >= 0 ? x[i - j] : 0.25); std::sort(w.begin(), w.end());
       double m = (k % 2) ? w[k / 2] : (w[k / 2 - 1] + w[k / 2]) / 2; if (std::fabs(m - y[i]) > 1e-12) { std::printf("MedianFilter(%d): y[%d] = %g, median of the window %g\\n", k, i, y[i], m); return 1; } } }''')
     if 'Tuner' in nm:
-        tests.append('''  for (int fs : {8, 100}) for (double f : {1.0, 3.0, -2.0}) { if (framing<arr_cmplx>("Tuner", [&]{ return Tuner(fs, f); }, [](Tuner& t, const arr_cmplx& x){ return t.process(x); }, 5 * fs + 3, 1, 1e-9)) return 1; }
+        tests.append('''  for (int fs : {8, 100}) for (double f : {1.0, 3.0, -2.0, 2.5, 0.3}) { if (framing<arr_cmplx>("Tuner", [&]{ return Tuner(fs, f); }, [](Tuner& t, const arr_cmplx& x){ return t.process(x); }, 5 * fs + 3, 1, 1e-9)) return 1; }
   // stream rotation y[k] = x[k] * exp(2*pi*i*f*k/fs) for integral f, over more than one second at an audio rate, in frames
   for (int fs : {100, 44100}) { const double f = 3; Tuner t(fs, f); long k = 0; const long total = 2L * fs + 77;
     while (k < total) { int len = int(std::min<long>(total - k, 4096 + (k % 5))); arr_cmplx x(len); for (int i = 0; i < len; ++i) x[i] = cmplx_t{1.0, 0.5};
